@@ -456,7 +456,13 @@ class ArgumentParser:
 
         # Directories given with -isystem are searched after all directories
         # given with -I, whatever their order on the command line.
-        args.include_paths = args.include_paths + args.system_include_paths
+        # A directory given with both options is searched as a system
+        # directory only.
+        args.include_paths = [
+            path
+            for path in args.include_paths
+            if path not in args.system_include_paths
+        ] + args.system_include_paths
 
         # Construct final list of active modes.
         args.modes = set(args.modes)
